@@ -106,9 +106,57 @@ def run_arrival(case):
     return out
 
 
+def run_timing(case):
+    """two requests on their way at once: order A rests; the market turns in play (bet delay case["delay"] s); order B is placed (its placement takes
+    delay + place latency) and A is cancelled right afterwards.  The cancel is answered one cancel latency after it was requested - it does not queue
+    behind B's placement.  Reports the wall-clock seconds from the cancel request to its answer and what A ended with."""
+    betting_client = mock.Mock(lightweight=False, username="paper")
+    client = clients.BetfairClient(betting_client, paper_trade=True, min_bet_validation=False)
+    fw = Flumine(client=client)
+    st = Placer(market_filter={"marketIds": [MARKET_ID]}, max_order_exposure=10 ** 6, max_selection_exposure=10 ** 6, max_live_trade_count=10 ** 6, max_trade_count=10 ** 6)
+    st.todo = []
+    fw.add_strategy(st)
+    st.start(fw)
+    stream_id = st.stream_ids[0]
+    runners = [201, 202]
+    now = int(time.time() * 1000)
+    cache = MarketBookCache(MARKET_ID, now, False, False, True)
+    out = {"error": None}
+    try:
+        cache.update_cache({"id": MARKET_ID, "marketDefinition": market_definition(runners), "rc": [{"id": 201, "atb": [[2.0, 100]], "atl": [[2.1, 100]]}, {"id": 202, "atb": [[3.0, 100]], "atl": [[3.2, 100]]}]}, now, True)
+        fw._process_market_books(MarketBookEvent([cache.create_resource(stream_id, snap=True)]))
+        market = fw.markets.markets[MARKET_ID]
+        ta = Trade(MARKET_ID, 201, 0, st)
+        a = ta.create_order(side="BACK", order_type=LimitOrder(price=2.06, size=2.0))     # rests above the best back price
+        market.place_order(a)
+        end = time.time() + 3
+        while time.time() < end and (a.status is None or a.status.value != "Executable"):
+            time.sleep(0.01)
+        md = market_definition(runners, version=2); md["inPlay"] = True; md["betDelay"] = case.get("delay", 1)
+        cache.update_cache({"id": MARKET_ID, "marketDefinition": md, "rc": []}, now + 500, True)
+        fw._process_market_books(MarketBookEvent([cache.create_resource(stream_id, snap=True)]))
+        tb = Trade(MARKET_ID, 202, 0, st)
+        b = tb.create_order(side="BACK", order_type=LimitOrder(price=3.1, size=2.0))
+        market.place_order(b)
+        t_req = time.time()
+        market.cancel_order(a)
+        end = time.time() + case.get("delay", 1) + 3
+        while time.time() < end and a.status.value == "Cancelling":
+            time.sleep(0.005)
+        out["cancel_answered_after_s"] = round(time.time() - t_req, 3)
+        out["a"] = {"status": a.status.value, "cancelled": a.simulated.size_cancelled, "matched": a.simulated.size_matched, "log": [x.value for x in a.status_log]}
+        fw.simulated_execution._thread_pool.shutdown(wait=True)
+        out["b_status"] = b.status.value
+    except Exception as e:
+        out["error"] = type(e).__name__ + ":" + str(e)[:200]
+    return out
+
+
 def main():
     j = json.loads(sys.stdin.read())
-    if j["job"] == "arrival":
+    if j["job"] == "timing":
+        res = [run_timing(c) for c in j["cases"]]
+    elif j["job"] == "arrival":
         res = [run_arrival(c) for c in j["cases"]]
     else:
         raise SystemExit("unknown job")
